@@ -304,6 +304,19 @@ def run_parafac2(X, rank, k, seed, opts):
                 return factors, projections, rec_error
         norm = math.sqrt(float(np.sum(np.asarray(X, dtype=float) ** 2)))
         opts["linesearch"] = Rejecting(norm, "truncated_svd", verbose=False, nn_modes=opts.get("nn_modes"), random_state=np.random.RandomState(seed))
+    if opts.pop("_accept_jumps", False):
+        # the symmetric decision sequence "always accept": the real line_step is asked to compare the extrapolated iterate with an
+        # infinite current error, so it keeps the jump and answers the iterate / error IT computed for it.  (Accepted jumps occur with
+        # data too, but a line_step that over-estimates the candidate's error also rejects more often: forced here.)
+        from tensorly.decomposition._parafac2 import _BroThesisLineSearch
+
+        class Accepting(_BroThesisLineSearch):
+            def line_step(self, iteration, tensor_slices, factors_last, weights, factors, projections, rec_error):
+                out = super().line_step(iteration, tensor_slices, factors_last, weights, factors, projections, float("inf"))
+                print("Accepted line search jump (forced by the harness)")
+                return out
+        norm = math.sqrt(float(np.sum(np.asarray(X, dtype=float) ** 2)))
+        opts["linesearch"] = Accepting(norm, "truncated_svd", verbose=False, nn_modes=opts.get("nn_modes"), random_state=np.random.RandomState(seed))
     buf = io.StringIO()
     with contextlib.redirect_stdout(buf):
         out, errs = parafac2(np.array(X), rank, n_iter_max=k, tol=opts.pop("_tol", 1e-300), return_errors=True, random_state=seed,
@@ -461,6 +474,8 @@ def configs(tier):
         ("parafac2_ls", "tensorly.decomposition.parafac2", run_parafac2, dict(), G, [3], KL),
         ("parafac2_ls_norm", "tensorly.decomposition.parafac2", run_parafac2, dict(normalize_factors=True), G, [3], KL[:1]),
         ("parafac2_nols", "tensorly.decomposition.parafac2", run_parafac2, dict(linesearch=False), G, [3], KL[:1]),
+        ("parafac2_ls_accept", "tensorly.decomposition.parafac2", run_parafac2, dict(_accept_jumps=True), ["generic", "integer"], [3], KL),
+        ("parafac2_ls_accept_norm", "tensorly.decomposition.parafac2", run_parafac2, dict(_accept_jumps=True, normalize_factors=True), ["generic"], [3], KL[:1]),
         ("parafac2_ls_reject", "tensorly.decomposition.parafac2", run_parafac2, dict(_reject_jumps=True), G, [3], KL),
         ("parafac2_tol", "tensorly.decomposition.parafac2", run_parafac2, dict(_tol=1e-4, linesearch=False), G, [3], KT),
         ("parafac2_norm", "tensorly.decomposition.parafac2", run_parafac2, dict(normalize_factors=True), G, [3], K),
